@@ -174,10 +174,10 @@ func tagName(tag string) string {
 }
 
 func init() {
-	registerRule("codec-symmetry", 43, "every component of every kind is both encoded and decoded", ruleCodecSymmetry)
-	registerRule("keyword-table", 150, "every meta-schema member of every kind has a byte-identical JSON field", ruleKeywordTable)
-	registerRule("zero-preserving", 20, "numeric keywords are pointer-typed; no omitempty on non-pointer numerics", ruleZeroPreserving)
-	registerRule("proxy-complete", 20, "anonymous encode proxies carry every member of the component they replace", ruleProxyComplete)
+	registerRule("codec-symmetry", 48, "every component of every kind is both encoded and decoded", ruleCodecSymmetry)
+	registerRule("keyword-table", 170, "every meta-schema member of every kind has a byte-identical JSON field", ruleKeywordTable)
+	registerRule("zero-preserving", 26, "numeric keywords are pointer-typed; no omitempty on non-pointer numerics", ruleZeroPreserving)
+	registerRule("proxy-complete", 34, "anonymous encode proxies carry every member of the component they replace", ruleProxyComplete)
 	registerRule("ref-key", 8, "writer and reader of $ref / $schema agree on the member name", ruleRefKey)
 }
 
